@@ -837,9 +837,6 @@ Proof.
   - intros x Hx. eapply Permutation_in; [|eapply Permutation_in; [apply Permutation_sym; exact H1|exact Hx]]. exact H2.
 Qed.
 
-Fixpoint pairs (l : list N) : list (N * N) :=
-  match l with [] => [] | x :: t => map (pair x) t ++ pairs t end.
-
 Lemma pairsum_pairs g l : pairsum g l = sumf (fun p => g (fst p) (snd p)) (pairs l).
 Proof.
   induction l as [|x t IH]; [reflexivity|]. cbn [pairsum pairs]. rewrite sumf_app, sumf_map, IH. reflexivity.
@@ -932,4 +929,137 @@ Proof.
     + rewrite adj_ok_cons2, eqb_reflx. cbn [orb andb]. rewrite IH. simpl. tauto.
   - assert (Hne : y <> x) by (intros ->; rewrite eqb_reflx in E; discriminate).
     rewrite (adj_ok_other x y t Hne), const_changes. lia.
+Qed.
+
+Lemma ordered_check_from_cons2 first y z t :
+  ordered_check_from first (y :: z :: t) =
+  (ktd first y + ktd y z =? ktd first z) && ordered_check_from first (z :: t).
+Proof. reflexivity. Qed.
+
+Lemma ordered_from_spec alts first t : NoDup alts -> Permutation alts first ->
+  Forall (fun o => Permutation alts o) t ->
+  (ordered_check_from first t = true <->
+   forall p, In p (pairs alts) ->
+     adj_ok (prefers first (fst p) (snd p)) (map (fun o => prefers o (fst p) (snd p)) t) = true).
+Proof.
+  intros Hnd Hf. induction t as [|y t IH]; intros Ht.
+  - simpl. split; auto.
+  - destruct t as [|z t'].
+    + simpl. split; auto.
+    + inversion Ht as [|? ? Hy Ht']; subst. inversion Ht' as [|? ? Hz _]; subst.
+      rewrite ordered_check_from_cons2, andb_true_iff, Nat.eqb_eq.
+      rewrite (ktd_additive alts first y z Hnd Hf Hy Hz), (IH Ht'). split.
+      * intros [H1 H2] p Hp. cbn [map]. rewrite adj_ok_cons2, andb_true_iff. split; [now apply H1|].
+        specialize (H2 p Hp). exact H2.
+      * intros H. split; intros p Hp; specialize (H p Hp); cbn [map] in H;
+          rewrite adj_ok_cons2, andb_true_iff in H; destruct H as [H1 H2]; assumption.
+Qed.
+
+Lemma switches_swap_args alts a b s : Forall (fun o => Permutation alts o) s ->
+  In a alts -> In b alts -> a <> b -> switches b a s = switches a b s.
+Proof.
+  intros Hs Ha Hb Hne. rewrite !switches_changes, <- (changes_negb (map (fun o => prefers o a b) s)), map_map.
+  f_equal. apply map_ext_in. intros o Ho. rewrite Forall_forall in Hs. specialize (Hs o Ho).
+  apply prefers_total; try assumption; eapply Permutation_in; eassumption.
+Qed.
+
+(* the verification pass of is_single_crossing (additivity of the Kendall-tau distances from the first
+   order of the sequence) accepts exactly the single-crossing sequences *)
+Theorem ordered_check_correct alts s : NoDup alts -> Forall (fun o => Permutation alts o) s ->
+  (ordered_check s = true <-> single_crossing_seq alts s).
+Proof.
+  intros Hnd Hs. destruct s as [|first t].
+  - simpl. split; [|reflexivity]. intros _ a b _ _ _. simpl. lia.
+  - inversion Hs as [|? ? Hf Ht]; subst. cbn [ordered_check].
+    rewrite (ordered_from_spec alts first t Hnd Hf Ht). split.
+    + intros H a b Ha Hb Hne.
+      assert (Hp : forall a b, In (a, b) (pairs alts) -> switches a b (first :: t) <= 1).
+      { intros a' b' Hp. specialize (H (a', b') Hp). cbn [fst snd] in H.
+        apply adj_ok_changes in H. rewrite switches_changes. exact H. }
+      destruct (pairs_cover a b alts Ha Hb Hne) as [Hin|Hin].
+      * now apply Hp.
+      * rewrite (switches_swap_args alts b a) by auto. now apply Hp.
+    + intros H [a b] Hp. cbn [fst snd]. apply adj_ok_changes.
+      pose proof (pairs_In a b alts Hp) as [Ha Hb]. pose proof (pairs_neq a b alts Hnd Hp) as Hne.
+      specialize (H a b Ha Hb Hne). rewrite switches_changes in H. exact H.
+Qed.
+
+Corollary ordered_check_seq_check alts s : NoDup alts -> Forall (fun o => Permutation alts o) s ->
+  ordered_check s = sc_seq_check alts s.
+Proof.
+  intros Hnd Hs.
+  assert (E : ordered_check s = true <-> sc_seq_check alts s = true).
+  { rewrite (ordered_check_correct alts s Hnd Hs), sc_seq_check_correct. tauto. }
+  destruct (ordered_check s), (sc_seq_check alts s); try reflexivity.
+  - symmetry. now apply E.
+  - now apply E.
+Qed.
+
+(* switches-free characterisation: Kendall tau is additive along every triple i < j < k of the sequence *)
+Lemma changes_sub3 m1 x m2 y m3 z m4 :
+  changes [x; y; z] <= changes (m1 ++ x :: m2 ++ y :: m3 ++ z :: m4).
+Proof.
+  eapply Nat.le_trans; [|apply (changes_delete_block [] m1 (x :: m2 ++ y :: m3 ++ z :: m4))]. cbn [app].
+  eapply Nat.le_trans; [|apply (changes_delete_block [x] m2 (y :: m3 ++ z :: m4))].
+  eapply Nat.le_trans; [|apply (changes_delete_block [x; y] m3 (z :: m4))].
+  pose proof (changes_delete_block [x; y; z] m4 []) as H0. rewrite !app_nil_r in H0. exact H0.
+Qed.
+
+Lemma ordered_from_adjacent first t :
+  (forall l2 y z rest, t = l2 ++ y :: z :: rest -> ktd first y + ktd y z = ktd first z) ->
+  ordered_check_from first t = true.
+Proof.
+  induction t as [|y t IH]; intros H; [reflexivity|]. destruct t as [|z t']; [reflexivity|].
+  rewrite ordered_check_from_cons2, andb_true_iff, Nat.eqb_eq. split.
+  - apply (H [] y z t'). reflexivity.
+  - apply IH. intros l2 y' z' rest E. apply (H (y :: l2) y' z' rest). rewrite E. reflexivity.
+Qed.
+
+Theorem sc_seq_kt_triples alts s : NoDup alts -> Forall (fun o => Permutation alts o) s ->
+  (single_crossing_seq alts s <->
+   forall l1 x l2 y l3 z l4, s = l1 ++ x :: l2 ++ y :: l3 ++ z :: l4 -> ktd x y + ktd y z = ktd x z).
+Proof.
+  intros Hnd Hs. split.
+  - intros H l1 x l2 y l3 z l4 E.
+    assert (Hin : forall o, In o [x; y; z] -> In o s).
+    { intros o Ho. rewrite E. simpl in Ho. rewrite !in_app_iff; cbn [In]; rewrite !in_app_iff; cbn [In].
+      rewrite !in_app_iff; cbn [In]. intuition. }
+    assert (H3 : Forall (fun o => Permutation alts o) [x; y; z]).
+    { rewrite Forall_forall in *. intros o Ho. apply Hs. now apply Hin. }
+    assert (Hsc : single_crossing_seq alts [x; y; z]).
+    { intros a b Ha Hb Hne. specialize (H a b Ha Hb Hne). rewrite switches_changes in *.
+      eapply Nat.le_trans; [|exact H]. rewrite E. rewrite map_app. cbn [map]. rewrite map_app. cbn [map].
+      rewrite map_app. cbn [map]. apply changes_sub3. }
+    apply (ordered_check_correct alts [x; y; z] Hnd H3) in Hsc.
+    cbn [ordered_check ordered_check_from] in Hsc. rewrite andb_true_r in Hsc. now apply Nat.eqb_eq.
+  - intros H. apply (ordered_check_correct alts s Hnd Hs). destruct s as [|first t]; [reflexivity|].
+    cbn [ordered_check]. apply ordered_from_adjacent. intros l2 y z rest E.
+    apply (H [] first l2 y [] z rest). rewrite E. reflexivity.
+Qed.
+
+(* Kendall tau as a count over the unordered pairs of alternatives *)
+Theorem ktd_pairs alts o1 o2 : NoDup alts -> Permutation alts o1 -> Permutation alts o2 ->
+  ktd o1 o2 = length (filter (fun p => conflict o1 o2 (fst p) (snd p)) (pairs alts)).
+Proof.
+  intros Hnd H1 H2. rewrite (ktd_conflicts alts o1 o2 Hnd H1 H2), pairsum_pairs, length_filter_sumf. reflexivity.
+Qed.
+
+(* ktd is the value of the C20 model of kendall_tau_distance on rankings over the same alternatives *)
+Lemma index_some x l : In x l -> exists i, index x l = Some i.
+Proof.
+  induction l as [|y t IH]; [contradiction|]. intros Hin. simpl.
+  destruct (N.eqb_spec x y) as [->|Hne]; [eexists; reflexivity|].
+  destruct Hin as [->|Hin]; [contradiction|]. destruct (IH Hin) as (i & ->). eexists; reflexivity.
+Qed.
+
+Lemma ktd_kendall_tau alts o1 o2 : Permutation alts o1 -> Permutation alts o2 ->
+  kendall_tau o1 o2 = Lib.Val.Ok (ktd o1 o2).
+Proof.
+  intros H1 H2. unfold kendall_tau, ktd.
+  assert (HP : Permutation o1 o2) by (eapply Permutation_trans; [apply Permutation_sym; exact H1|exact H2]).
+  rewrite (Permutation_length HP), Nat.eqb_refl. cbn [negb].
+  assert (Ha : all_in o1 o2 = true).
+  { unfold all_in. apply forallb_forall. intros x Hx.
+    destruct (index_some x o2) as (i & ->); [eapply Permutation_in; eassumption|reflexivity]. }
+  rewrite Ha. cbn [negb]. rewrite andb_false_r. reflexivity.
 Qed.
